@@ -8,6 +8,7 @@ package props
 import (
 	"bufio"
 	"bytes"
+	"encoding/binary"
 	"encoding/json"
 	"fmt"
 	"io"
@@ -178,6 +179,42 @@ func execHostile(req hostileReq, dir string) (resp hostileResp) {
 				db.UpdatePointsForArchive([]wt.Point{{Time: wt.Timestamp(now - 3), Value: 1}, {Time: wt.Timestamp(now - 2), Value: 2}, {Time: wt.Timestamp(now), Value: 3}}, a, wt.Timestamp(now))
 			}) {
 				return
+			}
+		}
+		// reads and writes right around each archive's stored base interval (the first slot), at clocks
+		// near it: a damaged base interval must not crash slot addressing
+		if h, herr := ParseWspHeader(req.Data); herr == nil {
+			for a, ar := range h.Archives {
+				if a >= n || uint64(ar.Offset)+4 > uint64(len(req.Data)) || ar.Step == 0 || ar.Step > 1<<20 {
+					continue
+				}
+				a := a
+				b := int64(binary.BigEndian.Uint32(req.Data[ar.Offset:]))
+				st := int64(ar.Step)
+				if b < 4*st+10 || b > 4000000000 {
+					continue
+				}
+				for _, nw := range []int64{b + st, b + 2*st + 1, b + 1} {
+					nw := nw
+					for _, w := range [][2]int64{{b - 2*st, b + 2*st}, {b - 1, b + 1}, {b - st, b}, {b, b + st - 1}, {b - st + 1, b + 1}} {
+						w := w
+						if !try(fmt.Sprintf("FetchFromArchive(%d, %d, %d, now=%d) around base %d", a, w[0], w[1], nw, b), func() {
+							db.FetchFromArchive(a, wt.Timestamp(w[0]), wt.Timestamp(w[1]), wt.Timestamp(nw))
+						}) {
+							return
+						}
+					}
+					if !try(fmt.Sprintf("UpdatePointForArchive(%d, t=%d, now=%d) around base %d", a, nw-1, nw, b), func() {
+						db.UpdatePointForArchive(a, wt.Timestamp(nw-1), 2.5, wt.Timestamp(nw))
+					}) {
+						return
+					}
+					if !try(fmt.Sprintf("UpdatePointsForArchive(%d, now=%d) around base %d", a, nw, b), func() {
+						db.UpdatePointsForArchive([]wt.Point{{Time: wt.Timestamp(nw - st), Value: 1}, {Time: wt.Timestamp(nw), Value: 3}}, a, wt.Timestamp(nw))
+					}) {
+						return
+					}
+				}
 			}
 		}
 		try("Sync", func() { db.Sync() })
